@@ -459,6 +459,15 @@ func runC07(c *mc.Ctx) {
 			m[bit/8] ^= 1 << uint(bit%8)
 			raws = append(raws, m)
 		}
+		if len(body) <= 2 || len(body) == 21 {
+			for _, pm := range checksumPatterns() {
+				m := append([]byte{}, good...)
+				for i := 0; i < 4; i++ {
+					m[len(body)+i] ^= pm[i]
+				}
+				raws = append(raws, m)
+			}
+		}
 		for t := 1; t <= 4 && t <= len(good); t++ {
 			raws = append(raws, append([]byte{}, good[:len(good)-t]...))
 		}
